@@ -119,7 +119,7 @@ Importer::~Importer()
 std::vector<ImportSourcePtr>::const_iterator Importer::ImporterImpl::findImportSource(const ImportSourcePtr &importSource) const
 {
     return std::find_if(mImports.begin(), mImports.end(),
-                        [=](const ImportSourcePtr &importSrc) -> bool { return importSource->equals(importSrc); });
+                        [=](const ImportSourcePtr &importSrc) -> bool { return (importSource != nullptr) && importSource->equals(importSrc); });
 }
 
 std::string Importer::ImporterImpl::modelUrl(const ModelPtr &model) const
@@ -387,6 +387,15 @@ bool Importer::ImporterImpl::fetchModel(const ImportSourcePtr &importSource, con
         mLibrary.insert(std::make_pair(url, model));
     } else {
         model = mLibrary[url];
+        if (model == nullptr) {
+            // The library has an entry for the URL, but no model (see replaceModel()).
+            auto issue = Issue::IssueImpl::create();
+            issue->mPimpl->setDescription("The attempt to resolve imports with the model at '" + url + "' failed: the model is not available in the importer.");
+            issue->mPimpl->mItem->mPimpl->setImportSource(importSource);
+            issue->mPimpl->setReferenceRule(Issue::ReferenceRule::IMPORTER_NULL_MODEL);
+            addIssue(issue);
+            return false;
+        }
     }
     importSource->setModel(model);
     return true;
@@ -691,6 +700,10 @@ void clearComponentImports(const ComponentPtr &component)
 
 void Importer::clearImports(ModelPtr &model)
 {
+    if (model == nullptr) {
+        return;
+    }
+
     // Clear the models from all import sources in the model.
     for (size_t u = 0; u < model->unitsCount(); ++u) {
         auto mu = model->units(u);
@@ -1032,6 +1045,10 @@ ModelPtr Importer::library(const size_t &index)
 
 bool Importer::addModel(const ModelPtr &model, const std::string &key)
 {
+    if (model == nullptr) {
+        return false;
+    }
+
     auto normalisedKey = normaliseDirectorySeparator(key);
     if (pFunc()->mLibrary.count(normalisedKey) != 0) {
         // If the key already exists in the library, do nothing.
